@@ -966,4 +966,395 @@ theorem closers_unique {p c : List Event} (hd : Dyck (p ++ c)) (hc : c.all Event
     rw [exec_pending hp]
     exact exec_allPops hc h
 
+/-! ## Every oracle: after a Terminate / error answer only pops follow -/
+
+theorem absorbBreak_hard {r : Out} (h : r.2.Hard) : (absorbBreak r).2.Hard := by
+  simp only [absorbBreak]
+  rw [if_neg h.ne_brk]
+  exact h
+
+mutual
+  theorem walkTree_hard (o : Oracle) (k : Nat) : (t : Tree) →
+      k < (walkTree o t).1.length → (o k).Hard →
+      ((walkTree o t).1.drop (k + 1)).all Event.isPop = true ∧ (walkTree o t).2.Hard
+    | .node s v kids, hk, hh => by
+      rw [walkTree_node] at hk ⊢
+      by_cases he : amend .ok (o 0) = .ok
+      · -- the push answered nil (or an absorbed value): the children are walked
+        have hv : visit o s v (walkForest (o.drop 1) kids) =
+            (Event.push s v :: ((walkForest (o.drop 1) kids).1 ++ [Event.pop s v]),
+              amend (walkForest (o.drop 1) kids).2 (o (1 + (walkForest (o.drop 1) kids).1.length))) := by
+          simp [visit, he]
+        rw [hv] at hk ⊢
+        simp only [List.length_cons, List.length_append, List.length_nil] at hk
+        rcases Nat.eq_zero_or_pos k with hk0 | hkpos
+        · subst hk0
+          rw [amend_ok_hard hh] at he
+          exact absurd he hh.ne_ok
+        · by_cases hin : k - 1 < (walkKids (o.drop 1) kids).1.length
+          · have hok : (o.drop 1 (k - 1)).Hard := by
+              have : 1 + (k - 1) = k := by omega
+              simp only [Oracle.drop, this]; exact hh
+            obtain ⟨hp, hr⟩ := walkKids_hard (o.drop 1) (k - 1) kids hin hok
+            have hk' : k - 1 + 1 = k := by omega
+            rw [hk'] at hp
+            constructor
+            · have hle : k ≤ (walkForest (o.drop 1) kids).1.length := by
+                simp only [walkForest, absorbBreak]; omega
+              rw [List.drop_succ_cons, List.drop_append_of_le_length hle]
+              simp only [walkForest, absorbBreak] at hp ⊢
+              simp [hp, Event.isPop]
+            · exact amend_hard_left _ (absorbBreak_hard hr)
+          · have hkeq : 1 + (walkForest (o.drop 1) kids).1.length = k := by
+              simp only [walkForest, absorbBreak] at hk ⊢; omega
+            constructor
+            · simp only [List.drop_succ_cons]
+              rw [List.drop_of_length_le (by simp; omega)]
+              rfl
+            · simp only [hkeq]
+              exact amend_hard_right _ hh
+      · rw [visit_of_not_ok he] at hk ⊢
+        simp only [List.length_cons, List.length_nil] at hk
+        rcases Nat.eq_zero_or_pos k with hk0 | hkpos
+        · subst hk0
+          refine ⟨by simp [Event.isPop], amend_hard_left _ ?_⟩
+          exact amend_hard_right _ hh
+        · have : k = 1 := by omega
+          subst this
+          exact ⟨by simp, amend_hard_right _ hh⟩
+  theorem walkKids_hard (o : Oracle) (k : Nat) : (f : Forest) →
+      k < (walkKids o f).1.length → (o k).Hard →
+      ((walkKids o f).1.drop (k + 1)).all Event.isPop = true ∧ (walkKids o f).2.Hard
+    | .nil, hk, _ => by simp at hk
+    | .cons t ts, hk, hh => by
+      rw [walkKids_cons] at hk ⊢
+      by_cases hin : k < (walkTree o t).1.length
+      · obtain ⟨hp, hr⟩ := walkTree_hard o k t hin hh
+        rw [if_neg hr.ne_ok]
+        exact ⟨hp, hr⟩
+      · by_cases hr : (walkTree o t).2 = .ok
+        · rw [if_pos hr] at hk ⊢
+          simp only [List.length_append] at hk
+          have hok : (o.drop (walkTree o t).1.length (k - (walkTree o t).1.length)).Hard := by
+            have : (walkTree o t).1.length + (k - (walkTree o t).1.length) = k := by omega
+            simp only [Oracle.drop, this]; exact hh
+          obtain ⟨hp, hr'⟩ := walkKids_hard (o.drop (walkTree o t).1.length)
+            (k - (walkTree o t).1.length) ts (by omega) hok
+          refine ⟨?_, hr'⟩
+          simp only []
+          rw [List.drop_append, List.drop_of_length_le (by omega)]
+          have : k + 1 - (walkTree o t).1.length = k - (walkTree o t).1.length + 1 := by omega
+          simpa [this] using hp
+        · rw [if_neg hr] at hk
+          exact absurd hk hin
+end
+
+/-! ## Every oracle: the walk returns the last real error a callback returned -/
+
+def Res.errCode : Res → Option Nat
+  | .err c => some c
+  | _ => none
+
+/-- the last real error among the answers, if any -/
+def lastErr : List Res → Option Nat
+  | [] => none
+  | r :: rest => (lastErr rest).or r.errCode
+
+/-- the answers the oracle gives to the first `n` callbacks -/
+def answers (o : Oracle) : Nat → List Res
+  | 0 => []
+  | n + 1 => o 0 :: answers (o.drop 1) n
+
+theorem lastErr_append (a b : List Res) : lastErr (a ++ b) = (lastErr b).or (lastErr a) := by
+  induction a with
+  | nil => simp [lastErr, Option.or_none]
+  | cons r rest ih =>
+    simp only [List.cons_append, lastErr, ih]
+    cases lastErr b <;> simp
+
+theorem answers_add (o : Oracle) (a b : Nat) :
+    answers o (a + b) = answers o a ++ answers (o.drop a) b := by
+  induction a generalizing o with
+  | zero => simp [answers]
+  | succ n ih =>
+    have : n + 1 + b = (n + b) + 1 := by omega
+    rw [this, answers, answers, ih, drop_drop]
+    simp [Nat.add_comm]
+
+theorem errCode_amend (p c : Res) : (amend p c).errCode = c.errCode.or p.errCode := by
+  cases c <;> cases p <;> simp [amend, Res.errCode]
+
+theorem errCode_absorbBreak (r : Out) : (absorbBreak r).2.errCode = r.2.errCode := by
+  simp only [absorbBreak]
+  split
+  · next h => rw [h]; rfl
+  · rfl
+
+theorem answers_one (o : Oracle) : answers o 1 = [o 0] := by simp [answers]
+
+theorem visit_lastErr (o : Oracle) (s : Step) (v : Val) (sub : Out)
+    (hsub : sub.2.errCode = lastErr (answers (o.drop 1) sub.1.length)) :
+    (visit o s v sub).2.errCode = lastErr (answers o (visit o s v sub).1.length) := by
+  by_cases he : amend .ok (o 0) = .ok
+  · have hv : visit o s v sub =
+        (Event.push s v :: (sub.1 ++ [Event.pop s v]), amend sub.2 (o (1 + sub.1.length))) := by
+      simp [visit, he]
+    rw [hv]
+    have hlen : (Event.push s v :: (sub.1 ++ [Event.pop s v])).length = 1 + (sub.1.length + 1) := by
+      simp; omega
+    simp only [hlen]
+    rw [answers_add, lastErr_append, answers_add, lastErr_append, drop_drop, answers_one, answers_one,
+      errCode_amend, hsub]
+    have h0 : (o 0).errCode = none := by
+      have := errCode_amend .ok (o 0)
+      rw [he] at this
+      cases h : (o 0).errCode with
+      | none => rfl
+      | some x => rw [h] at this; simp [Res.errCode] at this
+    simp only [lastErr, Option.none_or, h0, Oracle.drop, Nat.add_zero, Option.or_none]
+  · rw [visit_of_not_ok he]
+    simp only [List.length_cons, List.length_nil, answers, lastErr, Oracle.drop, Option.none_or]
+    rw [errCode_amend, errCode_amend]
+    simp [Res.errCode]
+
+mutual
+  theorem walkTree_lastErr (o : Oracle) : (t : Tree) →
+      (walkTree o t).2.errCode = lastErr (answers o (walkTree o t).1.length)
+    | .node s v kids => by
+      rw [walkTree_node]
+      apply visit_lastErr
+      rw [walkForest, errCode_absorbBreak]
+      exact walkKids_lastErr (o.drop 1) kids
+  theorem walkKids_lastErr (o : Oracle) : (f : Forest) →
+      (walkKids o f).2.errCode = lastErr (answers o (walkKids o f).1.length)
+    | .nil => by simp [answers, lastErr, Res.errCode]
+    | .cons t ts => by
+      rw [walkKids_cons]
+      split
+      · next h =>
+        simp only [List.length_append]
+        rw [answers_add, lastErr_append, ← walkKids_lastErr (o.drop _) ts, ← walkTree_lastErr o t, h]
+        simp [Res.errCode, Option.or_none]
+      · exact walkTree_lastErr o t
+end
+
+/-! ## Exactly once: every populated value has its own path, and every path is pushed once -/
+
+def Tree.step : Tree → Step
+  | .node s _ _ => s
+
+def Forest.steps : Forest → List Step
+  | .nil => []
+  | .cons t ts => t.step :: Forest.steps ts
+
+/- the paths (step sequences below `pre`) of all nodes, in pre-order -/
+mutual
+  def pathsTree (pre : List Step) : Tree → List (List Step)
+    | .node s _ kids => (pre ++ [s]) :: pathsKids (pre ++ [s]) kids
+  def pathsKids (pre : List Step) : Forest → List (List Step)
+    | .nil => []
+    | .cons t ts => pathsTree pre t ++ pathsKids pre ts
+end
+
+/- siblings are reached by pairwise different steps, everywhere in the tree -/
+mutual
+  def DistinctTree : Tree → Prop
+    | .node _ _ kids => DistinctKids kids
+  def DistinctKids : Forest → Prop
+    | .nil => True
+    | .cons t ts => t.step ∉ Forest.steps ts ∧ DistinctTree t ∧ DistinctKids ts
+end
+
+mutual
+  theorem pathsTree_prefix (pre : List Step) : (t : Tree) → ∀ q, q ∈ pathsTree pre t →
+      ∃ r, q = pre ++ t.step :: r
+    | .node s v kids, q, hq => by
+      simp only [pathsTree, List.mem_cons] at hq
+      rcases hq with rfl | hq
+      · exact ⟨[], by simp [Tree.step]⟩
+      · obtain ⟨s', _, r, hr⟩ := pathsKids_prefix (pre ++ [s]) kids q hq
+        exact ⟨s' :: r, by simp [Tree.step, hr]⟩
+  theorem pathsKids_prefix (pre : List Step) : (f : Forest) → ∀ q, q ∈ pathsKids pre f →
+      ∃ s, s ∈ Forest.steps f ∧ ∃ r, q = pre ++ s :: r
+    | .nil, q, hq => by simp [pathsKids] at hq
+    | .cons t ts, q, hq => by
+      simp only [pathsKids, List.mem_append] at hq
+      rcases hq with hq | hq
+      · obtain ⟨r, hr⟩ := pathsTree_prefix pre t q hq
+        exact ⟨t.step, by simp [Forest.steps], r, hr⟩
+      · obtain ⟨s, hs, r, hr⟩ := pathsKids_prefix pre ts q hq
+        exact ⟨s, by simp [Forest.steps, hs], r, hr⟩
+end
+
+mutual
+  theorem pathsTree_nodup (pre : List Step) : (t : Tree) → DistinctTree t → (pathsTree pre t).Nodup
+    | .node s v kids, h => by
+      simp only [DistinctTree] at h
+      simp only [pathsTree, List.nodup_cons]
+      refine ⟨?_, pathsKids_nodup (pre ++ [s]) kids h⟩
+      intro hmem
+      obtain ⟨s', _, r, hr⟩ := pathsKids_prefix (pre ++ [s]) kids _ hmem
+      have := congrArg List.length hr
+      simp at this
+  theorem pathsKids_nodup (pre : List Step) : (f : Forest) → DistinctKids f → (pathsKids pre f).Nodup
+    | .nil, _ => by simp [pathsKids]
+    | .cons t ts, h => by
+      simp only [DistinctKids] at h
+      simp only [pathsKids]
+      rw [List.nodup_append]
+      refine ⟨pathsTree_nodup pre t h.2.1, pathsKids_nodup pre ts h.2.2, ?_⟩
+      intro a ha b hb hab
+      subst hab
+      obtain ⟨r, hr⟩ := pathsTree_prefix pre t a ha
+      obtain ⟨s, hs, r', hr'⟩ := pathsKids_prefix pre ts a hb
+      rw [hr] at hr'
+      have := List.append_cancel_left hr'
+      simp only [List.cons.injEq] at this
+      exact h.1 (this.1 ▸ hs)
+end
+
+/-- The path (steps from the Root step down) reported with each push, replaying the stack. -/
+def pushPaths : List Step → List Event → List (List Step)
+  | _, [] => []
+  | stk, .push s _ :: r => (stk ++ [s]) :: pushPaths (stk ++ [s]) r
+  | stk, .pop _ _ :: r => pushPaths stk.dropLast r
+
+mutual
+  theorem contTree_pushPaths (stk : List Step) : (t : Tree) → (rest : List Event) →
+      pushPaths stk ((walkTree Oracle.cont t).1 ++ rest) = pathsTree stk t ++ pushPaths stk rest
+    | .node s v kids, rest => by
+      rw [contTree_fst]
+      simp only [List.cons_append, List.append_assoc, pushPaths, pathsTree]
+      rw [contKids_pushPaths (stk ++ [s]) kids]
+      simp [pushPaths]
+  theorem contKids_pushPaths (stk : List Step) : (f : Forest) → (rest : List Event) →
+      pushPaths stk ((walkKids Oracle.cont f).1 ++ rest) = pathsKids stk f ++ pushPaths stk rest
+    | .nil, rest => by simp [pathsKids]
+    | .cons t ts, rest => by
+      rw [contKids_fst, List.append_assoc, contTree_pushPaths stk t, contKids_pushPaths stk ts, pathsKids]
+      simp
+end
+
+/-! `wfMsg m` makes the steps of siblings pairwise different -/
+
+theorem steps_unknownKids (unk : List Nat) : ∀ s, s ∈ Forest.steps (unknownKids unk) → s = Step.unknown := by
+  intro s hs
+  unfold unknownKids at hs
+  split at hs <;> simp_all [Forest.steps, Tree.step]
+
+theorem steps_kidsFields : (fs : Fields) → (tail : Forest) → ∀ s, s ∈ Forest.steps (kidsFields fs tail) →
+    (∃ n v, s = Step.field n ∧ Fields.lookup n fs = some v) ∨ s ∈ Forest.steps tail
+  | .nil, tail, s, hs => by simpa [kidsFields] using Or.inr hs
+  | .cons num v rest, tail, s, hs => by
+    simp only [kidsFields, Forest.steps, Tree.step, List.mem_cons] at hs
+    rcases hs with rfl | hs
+    · exact Or.inl ⟨num, v, rfl, by simp [Fields.lookup]⟩
+    · rcases steps_kidsFields rest tail s hs with ⟨n, v', rfl, hl⟩ | h
+      · by_cases hn : num = n
+        · exact Or.inl ⟨n, v, rfl, by simp [Fields.lookup, hn]⟩
+        · exact Or.inl ⟨n, v', rfl, by simp [Fields.lookup, hn, hl]⟩
+      · exact Or.inr h
+
+theorem steps_kidsElems (i : Nat) : (es : Elems) → ∀ s, s ∈ Forest.steps (kidsElems i es) →
+    ∃ j, i ≤ j ∧ s = Step.listIndex j
+  | .nil, s, hs => by simp [kidsElems, Forest.steps] at hs
+  | .cons e rest, s, hs => by
+    simp only [kidsElems, Forest.steps, Tree.step, List.mem_cons] at hs
+    rcases hs with rfl | hs
+    · exact ⟨i, Nat.le_refl _, rfl⟩
+    · obtain ⟨j, hj, rfl⟩ := steps_kidsElems (i + 1) rest s hs
+      exact ⟨j, by omega, rfl⟩
+
+theorem steps_kidsEntries : (kvs : Entries) → ∀ s, s ∈ Forest.steps (kidsEntries kvs) →
+    ∃ k e, s = Step.mapIndex k ∧ Entries.lookup k kvs = some e
+  | .nil, s, hs => by simp [kidsEntries, Forest.steps] at hs
+  | .cons k e rest, s, hs => by
+    simp only [kidsEntries, Forest.steps, Tree.step, List.mem_cons] at hs
+    rcases hs with rfl | hs
+    · exact ⟨k, e, rfl, by simp [Entries.lookup]⟩
+    · obtain ⟨k', e', rfl, hl⟩ := steps_kidsEntries rest s hs
+      by_cases hk : k = k'
+      · exact ⟨k', e, rfl, by simp [Entries.lookup, hk]⟩
+      · exact ⟨k', e', rfl, by simp [Entries.lookup, hk, hl]⟩
+
+theorem distinct_unknownKids (unk : List Nat) : DistinctKids (unknownKids unk) := by
+  unfold unknownKids
+  split <;> simp [DistinctKids, DistinctTree, Forest.steps]
+
+mutual
+  theorem distinctMsg : (m : Msg) → wfMsg m = true → DistinctKids (kidsMsg m)
+    | .any ty fs unk body, h => by
+      simp only [wfMsg, Bool.and_eq_true] at h
+      simp only [kidsMsg, DistinctKids, DistinctTree, Forest.steps, List.not_mem_nil,
+        not_false_eq_true, and_true, true_and]
+      exact distinctMsg body h.2
+    | .plain ty fs unk, h => by
+      simp only [wfMsg] at h
+      rw [kidsMsg]
+      exact distinctFields fs (unknownKids unk) h (distinct_unknownKids unk)
+        (fun n hn => by have := steps_unknownKids unk _ hn; cases this)
+  theorem distinctFields : (fs : Fields) → (tail : Forest) → wfFields fs = true → DistinctKids tail →
+      (∀ n, Step.field n ∉ Forest.steps tail) → DistinctKids (kidsFields fs tail)
+    | .nil, tail, _, ht, _ => by simpa [kidsFields] using ht
+    | .cons num v rest, tail, h, ht, hno => by
+      simp only [wfFields, Bool.and_eq_true] at h
+      simp only [kidsFields, DistinctKids, DistinctTree, Tree.step]
+      refine ⟨?_, distinctVal v h.1.2, distinctFields rest tail h.2 ht hno⟩
+      intro hmem
+      rcases steps_kidsFields rest tail _ hmem with ⟨n, v', heq, hl⟩ | hin
+      · cases heq
+        have := Fields.lookup_gt rest h.1.1 hl
+        omega
+      · exact hno num hin
+  theorem distinctVal : (v : Val) → wfVal v = true → DistinctKids (kidsVal v)
+    | .scalar _, _ => by simp [kidsVal, DistinctKids]
+    | .msg m, h => by simp only [wfVal] at h; rw [kidsVal]; exact distinctMsg m h
+    | .list es, h => by simp only [wfVal] at h; rw [kidsVal]; exact distinctElems 0 es h
+    | .map kvs, h => by simp only [wfVal] at h; rw [kidsVal]; exact distinctEntries kvs h
+  theorem distinctElems (i : Nat) : (es : Elems) → wfElems es = true → DistinctKids (kidsElems i es)
+    | .nil, _ => by simp [kidsElems, DistinctKids]
+    | .cons e rest, h => by
+      simp only [wfElems, Bool.and_eq_true] at h
+      simp only [kidsElems, DistinctKids, DistinctTree, Tree.step]
+      refine ⟨?_, distinctElem e h.1, distinctElems (i + 1) rest h.2⟩
+      intro hmem
+      obtain ⟨j, hj, heq⟩ := steps_kidsElems (i + 1) rest _ hmem
+      cases heq
+      omega
+  theorem distinctElem : (e : Elem) → wfElem e = true → DistinctKids (kidsElem e)
+    | .scalar _, _ => by simp [kidsElem, DistinctKids]
+    | .msg m, h => by simp only [wfElem] at h; rw [kidsElem]; exact distinctMsg m h
+  theorem distinctEntries : (kvs : Entries) → wfEntries kvs = true → DistinctKids (kidsEntries kvs)
+    | .nil, _ => by simp [kidsEntries, DistinctKids]
+    | .cons k e rest, h => by
+      simp only [wfEntries, Bool.and_eq_true] at h
+      simp only [kidsEntries, DistinctKids, DistinctTree, Tree.step]
+      refine ⟨?_, distinctElem e h.1.2, distinctEntries rest h.2⟩
+      intro hmem
+      obtain ⟨k', e', heq, hl⟩ := steps_kidsEntries rest _ hmem
+      cases heq
+      have hlt := Entries.lookup_gt rest h.1.1 hl
+      rw [Key.lt_irrefl] at hlt
+      exact absurd hlt (by simp)
+end
+
+/-- The paths pushed by any prefix walk form a sublist of the paths of the forest. -/
+theorem Trace.pushPaths_sublist {f : Forest} {w : List Event} (h : Trace f w) :
+    ∀ (stk : List Step) (rest : List Event),
+      ∃ l, l.Sublist (pathsKids stk f) ∧ pushPaths stk (w ++ rest) = l ++ pushPaths stk rest := by
+  induction h with
+  | stop f => intro stk rest; exact ⟨[], List.nil_sublist _, by simp⟩
+  | @visit s v kids ts w rest' _ _ ih1 ih2 =>
+    intro stk rest
+    obtain ⟨l1, hs1, he1⟩ := ih1 (stk ++ [s]) (Event.pop s v :: (rest' ++ rest))
+    obtain ⟨l2, hs2, he2⟩ := ih2 stk rest
+    refine ⟨(stk ++ [s]) :: l1 ++ l2, ?_, ?_⟩
+    · simp only [pathsKids, pathsTree, List.cons_append]
+      exact List.Sublist.cons₂ _ (List.Sublist.append hs1 hs2)
+    · simp only [List.cons_append, List.append_assoc, pushPaths]
+      rw [he1]
+      simp only [pushPaths, List.dropLast_concat]
+      rw [he2]
+      simp
+
 end Model.Range
